@@ -18,7 +18,22 @@
 //! and at the end `P<h>.<h>...` (handles still pending) and `PANIC` if anything panicked.
 //! Steps: call h | newcall h | batch h n | sub h | ondisc h | isconn | next h | back <hex> | failsend | recvfault |
 //!        peerclose | release-close | dropclient | settle
+//!
+//! Ping / inactivity (`ClientBuilder::enable_ws_ping`): optional config token after the slow-close flag,
+//!   `<slowclose> P<interval_ms>,<limit_ms>,<maxfail> | steps`
+//! The mock sender implements `send_ping` (token `Wping`; it consumes the armed send fault like any other write), the
+//! mock receiver can deliver `ReceivedMessage::Pong`.  Extra steps:
+//!   pong                 a Pong frame arrives
+//!   quiet <ms> [class]   REAL time: the harness sleeps (in slices of 5 ms, so that the runtime runs its timers) for
+//!                        <ms> ms; nothing arrives.  The class word (alive|die) is for the model side only.
+//!   failping <ms>        arms the send fault and stays quiet for <ms> ms: the next ping write fails
+//! Because the inactivity check uses real time the engine reports what the clock did, as `T..` tokens that the
+//! python side strips before diffing: in every quiet/failping segment `T<a>.<b>.<s>.<g>` = ms since the last frame was
+//! handed to the receiver (or the client was built) at the start / at the end of the silence, the longest single
+//! sleep slice (a stalled process shows there) and the longest gap between two frames up to the start of this silence;
+//! the last segment carries `T<ms since the last frame>.<longest gap between two frames of the whole case>`.
 use jrv::*;
+use jsonrpsee::core::client::async_client::PingConfig;
 use jsonrpsee::core::client::{
 	BatchResponse, ClientBuilder, ClientT, Error, IdKind, ReceivedMessage, Subscription, SubscriptionClientT,
 	SubscriptionCloseReason, SubscriptionKind, TransportReceiverT, TransportSenderT,
@@ -30,7 +45,7 @@ use serde_json::value::RawValue;
 use std::collections::BTreeMap;
 use std::sync::atomic::{AtomicBool, Ordering};
 use std::sync::{Arc, Mutex};
-use std::time::Duration;
+use std::time::{Duration, Instant};
 use tokio::sync::mpsc;
 use tokio::task::JoinHandle;
 
@@ -62,6 +77,15 @@ impl TransportSenderT for MockSender {
 			Ok(())
 		}
 	}
+	fn send_ping(&mut self) -> impl Future<Output = Result<(), MockErr>> + Send {
+		async move {
+			if self.failnext.swap(false, Ordering::SeqCst) {
+				return Err(MockErr("injected send error"));
+			}
+			self.log.lock().unwrap().push("Wping".into());
+			Ok(())
+		}
+	}
 	fn close(&mut self) -> impl Future<Output = Result<(), MockErr>> + Send {
 		async move {
 			self.log.lock().unwrap().push("Xclosing".into());
@@ -80,6 +104,7 @@ impl Drop for MockSender {
 
 enum Incoming {
 	Frame(Vec<u8>),
+	Pong,
 	Fault,
 	PeerClose,
 }
@@ -93,6 +118,7 @@ impl TransportReceiverT for MockReceiver {
 		async move {
 			match self.frames.recv().await {
 				Some(Incoming::Frame(b)) => Ok(ReceivedMessage::Bytes(b)),
+				Some(Incoming::Pong) => Ok(ReceivedMessage::Pong),
 				Some(Incoming::Fault) => Err(MockErr("injected receive error")),
 				Some(Incoming::PeerClose) => Err(MockErr("connection closed by peer")),
 				// `receive` has no way to say "end of stream": a transport can only return a message or an error
@@ -121,6 +147,8 @@ fn cause_class(e: &Error) -> String {
 	};
 	if s.contains("could not be found") {
 		"PLACEHOLDER".into()
+	} else if s.contains("WebSocket ping/pong inactive") {
+		"inactive".into()
 	} else if s.contains("injected send error") {
 		"sendfault".into()
 	} else if s.contains("injected receive error") {
@@ -186,7 +214,24 @@ async fn run_case(line: &str) -> String {
 		Some(x) => x,
 		None => return "?bad-line".into(),
 	};
-	let slow_close = cfg.trim() == "1";
+	let mut slow_close = false;
+	let mut ping: Option<(u64, u64, usize)> = None;
+	for t in cfg.split_whitespace() {
+		if t == "1" {
+			slow_close = true;
+		} else if let Some(p) = t.strip_prefix('P') {
+			let v: Vec<&str> = p.split(',').collect();
+			if v.len() != 3 {
+				return "?bad-ping-config".into();
+			}
+			match (v[0].parse(), v[1].parse(), v[2].parse()) {
+				(Ok(a), Ok(b), Ok(c)) if c > 0 => ping = Some((a, b, c)),
+				_ => return "?bad-ping-config".into(),
+			}
+		} else if t != "0" {
+			return "?bad-config".into();
+		}
+	}
 
 	let log: Log = Arc::new(Mutex::new(Vec::new()));
 	let failnext = Arc::new(AtomicBool::new(false));
@@ -194,15 +239,28 @@ async fn run_case(line: &str) -> String {
 	let (frame_tx, frame_rx) = mpsc::unbounded_channel();
 	let sender = MockSender { log: log.clone(), failnext: failnext.clone(), slow_close, close_permit: close_rx };
 	let receiver = MockReceiver { log: log.clone(), frames: frame_rx };
-	let mut client = Some(Arc::new(
-		ClientBuilder::new()
-			.request_timeout(Duration::from_secs(100_000))
-			.max_concurrent_requests(1024)
-			.max_buffer_capacity_per_subscription(8)
-			.id_format(IdKind::Number)
-			.disable_ws_ping()
-			.build_with_tokio(sender, receiver),
-	));
+	let builder = ClientBuilder::new()
+		.request_timeout(Duration::from_secs(100_000))
+		.max_concurrent_requests(1024)
+		.max_buffer_capacity_per_subscription(8)
+		.id_format(IdKind::Number);
+	let builder = match ping {
+		None => builder.disable_ws_ping(),
+		Some((interval, limit, maxfail)) => builder.enable_ws_ping(
+			PingConfig::new()
+				.ping_interval(Duration::from_millis(interval))
+				.inactive_limit(Duration::from_millis(limit))
+				.max_failures(maxfail),
+		),
+	};
+	let mut last_frame = Instant::now();
+	let mut max_gap = Duration::ZERO;
+	let mut client = Some(Arc::new(builder.build_with_tokio(sender, receiver)));
+	if ping.is_some() {
+		// the ping interval ticks immediately (timer granularity 1 ms): let the first ping go out before the script starts
+		tokio::time::sleep(Duration::from_millis(2)).await;
+		settle().await;
+	}
 
 	let (done_tx, mut done_rx) = mpsc::unbounded_channel::<(u64, Done)>();
 	let mut tasks: BTreeMap<u64, JoinHandle<()>> = BTreeMap::new();
@@ -328,13 +386,49 @@ async fn run_case(line: &str) -> String {
 				));
 			}
 			"back" => {
+				max_gap = max_gap.max(last_frame.elapsed());
+				last_frame = Instant::now();
 				let _ = frame_tx.send(Incoming::Frame(unhex(t[1])));
 			}
+			"pong" => {
+				max_gap = max_gap.max(last_frame.elapsed());
+				last_frame = Instant::now();
+				let _ = frame_tx.send(Incoming::Pong);
+			}
 			"recvfault" => {
+				max_gap = max_gap.max(last_frame.elapsed());
+				last_frame = Instant::now();
 				let _ = frame_tx.send(Incoming::Fault);
 			}
 			"peerclose" => {
+				max_gap = max_gap.max(last_frame.elapsed());
+				last_frame = Instant::now();
 				let _ = frame_tx.send(Incoming::PeerClose);
+			}
+			"quiet" | "failping" => {
+				let ms: u64 = match t.get(1).and_then(|x| x.parse().ok()) {
+					Some(ms) => ms,
+					None => return format!("?bad-event {}", t[0]),
+				};
+				if t[0] == "failping" {
+					failnext.store(true, Ordering::SeqCst);
+				}
+				max_gap = max_gap.max(last_frame.elapsed());
+				let at_start = last_frame.elapsed().as_millis();
+				let gap_so_far = max_gap.as_millis();
+				let begin = Instant::now();
+				let total = Duration::from_millis(ms);
+				let mut worst = Duration::ZERO;
+				loop {
+					let done = begin.elapsed();
+					if done >= total {
+						break;
+					}
+					let slice_begin = Instant::now();
+					tokio::time::sleep((total - done).min(Duration::from_millis(5))).await;
+					worst = worst.max(slice_begin.elapsed());
+				}
+				extra.push(format!("T{}.{}.{}.{}", at_start, last_frame.elapsed().as_millis(), worst.as_millis(), gap_so_far));
 			}
 			"failsend" => {
 				failnext.store(true, Ordering::SeqCst);
@@ -389,7 +483,15 @@ async fn run_case(line: &str) -> String {
 		out_events.push(parts.join(","));
 	}
 	let pending: Vec<String> = tasks.keys().map(|h| h.to_string()).collect();
-	out_events.push(format!("P{}", pending.join(".")));
+	out_events.push(match ping {
+		None => format!("P{}", pending.join(".")),
+		Some(_) => format!(
+			"P{},T{}.{}",
+			pending.join("."),
+			last_frame.elapsed().as_millis(),
+			max_gap.max(last_frame.elapsed()).as_millis()
+		),
+	});
 	// let the background tasks go away before the next case
 	drop(subs);
 	for (_, j) in tasks {
